@@ -4,7 +4,8 @@ M: TLC checks on Framer.tla (streams = concatenations of pieces) that what can b
    prefix is a prefix of what is framed from the whole (the content-only semantics that makes
    chunk independence possible).
 R: vh framer runs the real parser (default buffer and pre-seeded 16/32/64-byte buffers) over every
-   stream under one-byte reads, fixed sizes, every single cut, random double cuts and ragged reads.
+   stream under one-byte reads, fixed sizes, every single cut, random double cuts and ragged reads, each
+   with the end of the stream reported after the last bytes and together with them.
 V: TLC validates per stream that all chunkings gave ONE result and that it is Framer!Frames(stream)
    (FramerTrace.tla); for streams of well-formed messages separated by junk without "8=", that the
    frames are exactly the messages.
@@ -91,6 +92,11 @@ def run(ctx):
         for m in ms:
             s += m + rng.choice(['', 'j' * rng.choice([1, 5000])])
         cases.append({'id': 'big%d' % k, 'stream': [ord(c) for c in s], 'msgs': [[ord(c) for c in m] for m in ms]})
+    # a message larger than the buffer followed by a long tail of small ones: the grown buffer is run through again
+    for k, fill in enumerate([4500, 6001] if quick else [4500, 6000, 6001, 10000, 20000]):
+        tail = 150 if quick else 400
+        ms = [P['good1']] * 3 + [pieces(filler=fill)['good40']] + [P[rng.choice(['good1', 'good7', 'good40'])] for _ in range(tail)]
+        cases.append({'id': 'bigtail%d' % k, 'stream': [ord(c) for c in ''.join(ms)], 'msgs': [[ord(c) for c in m] for m in ms]})
     cp = os.path.join(ctx.scratch, 'cases.ndjson')
     common.ndjson_write(cp, cases)
     tp = os.path.join(ctx.scratch, 'trace.ndjson')
